@@ -72,6 +72,14 @@ int Model::expect(const Op &o) const {
             if (o.sig < 0 || o.sig > 255 || o.src < 0 || o.src > 255) return 1;
             if (signals.count(o.sig) || !sources.count(o.src)) return 1;
             if (o.sigtype == 0 && o.p[0] == 0) return 1;     // FSR requires a sample rate
+            if (o.dtx) {     // raw data type codes of misuse programs: a code that is no documented type must be refused; a fixed-point position on an integer type is legal
+                uint32_t base = o.dtx & 0x0f, size = (o.dtx >> 8) & 0xff, q = (o.dtx >> 16) & 0xff; bool top = (o.dtx >> 24) != 0;
+                bool ok_int = (base == 1 && (size == 4 || size == 8 || size == 16 || size == 24 || size == 32 || size == 64)) || (base == 3 && (size == 1 || size == 4 || size == 8 || size == 16 || size == 24 || size == 32 || size == 64));
+                bool ok_flt = base == 4 && (size == 32 || size == 64) && q == 0;
+                if ((o.dtx & 0xf0) || !(ok_int || ok_flt)) return 1;
+                (void) top;      // bits above the fixed-point position are not documented either way
+                return 2;
+            }
             for (int k = 0; k < 2; ++k) if (o.sl[k] >= (1 << 20) - 16) return 2;
             return 0;
         case OP_FSR: case OP_OMIT: case OP_UTC: {
